@@ -32,6 +32,7 @@ type c23Conn struct {
 	rdl    time.Time
 	closed bool
 	writes [][]byte
+	frag   int // > 0: deliver at most this many bytes per Read (fragmented client writes)
 }
 
 func c23NewConn(in []byte) *c23Conn {
@@ -51,6 +52,9 @@ func (c *c23Conn) Read(b []byte) (int, error) {
 			return 0, nil
 		}
 		if len(c.in) > 0 {
+			if c.frag > 0 && len(b) > c.frag {
+				b = b[:c.frag]
+			}
 			n := copy(b, c.in)
 			c.in = c.in[n:]
 			return n, nil
@@ -193,7 +197,7 @@ func (i c23ICMP) IsICMPEnabled() bool              { return i.w.icmp != 'o' }
 
 // c23Drive feeds `input` to h.Handle over a scripted connection and renders what happened:
 // "r <msg>,<msg>,... a <action>".
-func c23Drive(h *socks5.Handler, w *c23World, input []byte) string {
+func c23Drive(h *socks5.Handler, w *c23World, input []byte, frag int) string {
 	if w.udp != 'x' {
 		h.SetUDPHandler(c23UDP{w})
 	}
@@ -201,6 +205,7 @@ func c23Drive(h *socks5.Handler, w *c23World, input []byte) string {
 		h.SetICMPHandler(c23ICMP{w})
 	}
 	conn := c23NewConn(input)
+	conn.frag = frag
 	done := make(chan string, 1)
 	go func() {
 		defer func() {
